@@ -41,7 +41,7 @@ def cases(draw):
                 r["lb"] = -specs.INF
     return {
         "spec": spec,
-        "path": draw(st.sampled_from(build.BUILD_PATHS)),
+        "path": draw(st.sampled_from(build.BUILD_PATHS_LP)),
         "sense_arg": draw(st.sampled_from([None, None, "maximize", "minimize"])),
         "raise_error": draw(st.booleans()),
         "error_value": draw(st.sampled_from(["nan", "nan", 0.0, -1.5, None])),
@@ -77,7 +77,7 @@ def check_solution_optimal(spec, sol, sense, exact, known, ctx, where="optimize"
     if exact.status != "optimal":
         _v(f"{where}:false-optimal", f"status optimal but the exact verdict is {exact.status}")
     flux = {rid: float(sol.fluxes[rid]) for rid in sol.fluxes.index}
-    if list(sol.fluxes.index) != [r["id"] for r in spec["rxns"]]:
+    if sorted(sol.fluxes.index) != sorted(r["id"] for r in spec["rxns"]):
         _v(f"{where}:index", f"fluxes index {list(sol.fluxes.index)}")
     check_feasible_vector(spec, flux, where)
     cvec = spec["objective"]
@@ -162,6 +162,11 @@ def check_case(case, ctx):
         if sol.status != "optimal":
             _v("optimize:missed-optimum", f"status {sol.status} although an optimum {exact.value} exists")
         flux = check_solution_optimal(spec, sol, sense, exact, known, ctx)
+        # the frames follow the model's lists (which a build path may have reordered)
+        if list(sol.fluxes.index) != [r.id for r in model.reactions] or list(sol.reduced_costs.index) != [r.id for r in model.reactions]:
+            _v("optimize:index", f"fluxes index {list(sol.fluxes.index)} / reduced costs index {list(sol.reduced_costs.index)} but model.reactions is {[r.id for r in model.reactions]}")
+        if list(sol.shadow_prices.index) != [m.id for m in model.metabolites]:
+            _v("optimize:index", f"shadow price index {list(sol.shadow_prices.index)} but model.metabolites is {[m.id for m in model.metabolites]}")
         # per-object accessors reflect the most recent solve
         for r in model.reactions:
             if abs(r.flux - flux[r.id]) > 1e-9 * max(1, abs(flux[r.id])):
